@@ -89,4 +89,30 @@ PROPS = {
                         "no symbolic links: the kernel resolves '..' lexically",
                         "std::path/camino component rules are as modelled (compared on every run)"],
     },
+    "C16": {
+        "props_files": ["C16"],
+        "theorems": ["C16_own_bytes_only", "C16_history_independent", "C16_buffer_size_kept", "C16_truncated_rejected"],
+        "components": ["udp"],
+        "rule": "cases = histories of datagrams sent over loopback UDP to ONE real UdpTransport (one receive buffer): for every PDU of a "
+                "corpus (EOF, Finished with/without filestore responses, ACK, Metadata with TLVs, NAK, Prompt, KeepAlive, FileData "
+                "unsegmented/segmented/empty; CRC on/off; small/large file flag) the PDU itself followed by EVERY truncation length of it; a long "
+                "datagram (1000/9000/60000 bytes) followed by every truncation length of another PDU (thorough: every ordered pair of the corpus); "
+                "random histories with 20% malformed datagrams (garbage, trailing junk, flipped bits); non-trivial = at least 2 datagrams; "
+                "distinct = distinct op-list text",
+        "explanation": "Theorems over Model/Udp.v for every decoder (the codec is a universally quantified function), every buffer content and "
+                       "every sequence of datagrams of at most buffer size; model tied to transport.rs by running the extracted receive-buffer "
+                       "model, instantiated with the real decoder's answers on isolated byte strings, against the real UdpTransport::receive on "
+                       "127.0.0.1; oracle on the implementation alone: each datagram must decode exactly as its own bytes do in isolation, a "
+                       "truncated valid PDU must be rejected.",
+        "level_text": "Full proof on the model: for any decoder and any earlier traffic, receive() returns the decoding of exactly the bytes of the "
+                      "current datagram (history independence by induction over the sequence of datagrams), and for any decoder that rejects "
+                      "strict prefixes a datagram truncated in flight is rejected rather than completed with stale bytes. The model is tied to "
+                      "transport.rs by differential execution over real loopback sockets with every truncation length of every corpus PDU after "
+                      "longer datagrams. This is the right level because the property quantifies over all histories of a three-line buffer discipline.",
+        "level_note": "Trusted: Coq kernel; extraction; driver/harness; the socket (a datagram of at most 65535 bytes is delivered whole into the "
+                      "first n bytes of the buffer, n returned by recv_from). That the real PDU decoder rejects strict prefixes of valid PDUs is "
+                      "observed on every run for the corpus, and is a codec property (C05/C06), not proved here.",
+        "assumptions": ["a UDP datagram has at most 65535 bytes and recv_from writes it to the beginning of the buffer and returns its length",
+                        "the decoder is a function of the bytes it is handed (no hidden state)"],
+    },
 }
